@@ -47,6 +47,14 @@ def cases(rng, tier):
                 d = VL.vdict([(wa, VL.vint(5)), (wb, VL.vint(6))])
                 want = '6' if VL.spec_eq(wa, wb) else '5'
                 yield Case(program=render(call(d.expr, wa.expr)), tag='cross-kind-key-' + wn, monitor='c06_expect', data=want)
+    # (1b) I/O actions compare by *all* their contents — a three-argument ㄱㄹ also by its handler (seeded change S06h left
+    # the handler out of the key): same action / continuation objects, different or missing handler
+    BG, BH, B2 = "(ㄱㅇㄱ ㄴㅇㄱ ㄷㅇㄱ ㄱㄹㅎㄹ)", "(ㄱㅇㄱ ㄴㅇㄱ ㄹㅇㄱ ㄱㄹㅎㄹ)", "(ㄱㅇㄱ ㄴㅇㄱ ㄱㄹㅎㄷ)"
+    body = (f"({BG} {BH} ㄴㅎㄷ) ({B2} {BG} ㄴㅎㄷ) ({BG} {BG} ㄴㅎㄷ) ({BG} ({BG} ㄴ {BH} ㄷ ㅅㅈㅎㅁ) ㅎㄴ) ({BH} ({BG} ㄴ {BH} ㄷ ㅅㅈㅎㅁ) ㅎㄴ) "
+            f"(({BG} ㅁㄹㅎㄴ) ({BH} ㅁㄹㅎㄴ) ㄴㅎㄷ) ({B2} ({B2} ㄴ {BG} ㄷ ㅅㅈㅎㅁ) ㅎㄴ) ㅁㄹㅎㅈ")
+    for first in ["(ㄴ ㄱㅅㅎㄴ)", "(ㄹㅎㄱ)", "((ㅁㅈㅎㄱ) ㅈㄹㅎㄴ)"]:
+        yield Case(program=f"{first} (ㄱㅇㄱ ㄱㅅㅎㄴ ㅎ) (ㄱㅇㄱ ㄱㅅㅎㄴ ㅎ) (ㄴ ㄱㅅㅎㄴ ㅎ) ({body} ㅎ) ㅎㅁ", tag='bind-handler-key',
+                   monitor='c06_expect', data='[False, False, True, 1, 2, False, 1]')
     # (1a) strings: equal iff the same code points — no normalisation, no case / width folding
     strs = [VL.vstr(x) for x in ["가", "\u1100\u1161", "\u00e9", "e\u0301", "\u212b", "\u00c5", "A\u030a", "\uf900", "\u8c48", "a", "A", "ａ", "", " "]]
     for x in strs:
